@@ -17,7 +17,7 @@ def run(chk, tier):
     chk.floor("R-FLAGS", "entry points", ns, 9)
     chk.rule("R-CAP", "caller-capacity out-arrays: every store indexed by a counter proved below the capacity")
     no, _ = cap.run(chk, P, "memattrs.c", funcs=list(OUT), out_arrays=OUT)
-    chk.floor("R-CAP", "out-array accesses", no, 7)
+    chk.floor("R-CAP", "out-array accesses", no, 5)
     # *nrp receives the counter on success
     for fn in OUT:
         f = P.need_func(fn, "memattrs.c")
